@@ -635,12 +635,12 @@ Proof.
 Qed.
 
 (* the thread stops: set_thr (rel s x) t (TDone ..), possibly after putting its connection back *)
-Lemma rinv_done s t x p k x1 o kept idle' :
-  RInv s -> s_thr s t = TRun x p k -> x_rd x1 = x_rd x ->
-  RInv (set_thr (rel s x1) t (TDone x1 o kept)) /\ RInv (set_thr (set_idle (rel s x1) idle') t (TDone x1 o kept)).
+Lemma rinv_done s t x p k xa xb o kept idle' :
+  RInv s -> s_thr s t = TRun x p k -> x_rd xa = x_rd x ->
+  RInv (set_thr (rel s xa) t (TDone xb o kept)) /\ RInv (set_thr (set_idle (rel s xa) idle') t (TDone xb o kept)).
 Proof.
   intros HR Hth Hx. pose proof (holds_run _ _ _ _ _ HR Hth) as Hh.
-  destruct (rel_rfree s x1) as [Hf Hn]. destruct (rel_same s x1) as (_ & Ht & _).
+  destruct (rel_rfree s xa) as [Hf Hn]. destruct (rel_same s xa) as (_ & Ht & _).
   split; apply (rinv_release s _ t HR).
   all: try (cbn; rewrite ?Hf, ?Hn, ?Hh, ?Hx; reflexivity).
   all: try (cbn; rewrite Nat.eqb_refl; (reflexivity || exact I)).
@@ -722,13 +722,17 @@ Proof.
     destruct (c_inb k) as [|[tg sy] rest] eqn:Hinb; [discriminate|].
     assert (Hx : forall x0, x_rd (add_got x0 (tg, sy)) = x_rd x0) by reflexivity.
     assert (Hsh : x_rd (set_head x sy) = x_rd x) by (destruct sy as [|?|[?|]|]; reflexivity).
+    assert (Hnoacq : forall p0 p1, rd_sym (s_max s) (eff_skip (x_opts x)) (o_stream (x_opts x)) p0 sy = RMore p1 -> p1 <> PAcq).
+    { intros p0 p1 H ->. revert H. unfold rd_sym, after_head.
+      repeat match goal with
+             | |- context [match ?c with _ => _ end] => destruct c
+             | |- context [if ?c then _ else _] => destruct c
+             end; discriminate. }
     destruct p; try discriminate;
       (destruct (rd_sym _ _ _ _ _) as [p1|body|e] eqn:Hrd; injection Hstep as <-;
-       [ eapply rinv_keep; eauto; [rewrite Hx, ?Hsh; reflexivity|split; [discriminate|]; intros ->; exfalso; revert Hrd; unfold rd_sym, after_head;
-           repeat match goal with |- context [match ?c with _ => _ end] => destruct c | |- context [if ?c then _ else _] => destruct c end; discriminate]
-       | eapply finish_rinv; eauto; [discriminate|rewrite Hx, ?Hsh; reflexivity]
-       | eapply rinv_done; eauto; rewrite Hx, ?Hsh; reflexivity ]).
-    Unshelve. all: exact [].
+       [ apply (rinv_keep s t x _ k _ _ _ HR Hth); [rewrite Hx, ?Hsh; reflexivity|split; [discriminate|intros E; exfalso; exact (Hnoacq _ _ Hrd E)]]
+       | apply (finish_rinv s t x _ k _ _ _ HR Hth); [discriminate|rewrite Hx, ?Hsh; reflexivity]
+       | apply (proj1 (rinv_done s t x _ k x _ _ false [] HR Hth eq_refl)) ]).
   - (* LReadEof *)
     destruct (s_thr s t) as [|x p k|] eqn:Hth; try discriminate. destruct p; try discriminate.
     destruct (c_inb k); [|discriminate]. destruct (c_srvclosed k); [|discriminate]. injection Hstep as <-.
